@@ -16,13 +16,14 @@ META = {
         "listed order, also with each recursion knot unfolded once, and no alternative may be derived as a whole by an earlier one "
         "(R2). Typing: every well-typed call of the five functions is accepted by the function table (R3). No pest call limit (R4). "
         "Every validator call site is a filter on the span of the rule whose text it sees (pair typing), text gates are compiled "
-        "to the texts they accept, and every other Err construction of the AST builder must be one a model reads (R5). Not "
+        "to the texts they accept, and every other Err construction of the AST builder must be one a model reads (R5). Number literals: range checks leave "
+        "the I-JSON integer range whole and never bound floats (R6). Not "
         "decided: parsing time; greedy-repetition hazards (FIRST/FOLLOW disjointness was confirmed by reading, not checked); "
         "integer literals in comparisons beyond +-(2^53-1)."),
     "trusted_base": ["pest_meta 2.9.1 (grammar parser)", "A7 model of pest_generator 2.9.1's implicit whitespace", "spec/rfc9535.abnf (self-checked on 226 strings)",
                      "pestfacts automata engine", "vf driver + rules"],
     "assumptions": ["the three knots carry all recursion of both grammars (checked: otherwise the converter refuses)"],
-    "not_decided": ["PEG time complexity", "greedy repetition hazards", "range of integer literals in comparisons"],
+    "not_decided": ["PEG time complexity", "greedy repetition hazards", "integer literals in comparisons beyond +-(2^53-1) (RFC 9535 does not bound them; the library rejects them)"],
 }
 
 HAZ = os.path.join(facts.VERIF, "spec", "peg_hazards.json")
